@@ -69,6 +69,11 @@ func (f *fakeClk) MeasureClockOffset(ctx context.Context) (time.Time, time.Durat
 	}
 	rec()
 	if f.sp.ok {
+		// about half of the successful clocks report the zero time.Time, as core/sync's
+		// localReferenceClock does: a success is a nil error, whatever its timestamp
+		if (int64(f.id)+f.sp.due)%2 == 1 {
+			return time.Time{}, offsetOf(f.id), nil
+		}
 		return time.Now(), offsetOf(f.id), nil
 	}
 	return time.Time{}, 0, errFake
